@@ -68,7 +68,7 @@ func idsOracle(w *World, x *Exec, wls []Workload) []Violation {
 func c08Scenarios(tier string) []*Scenario {
 	var scs []*Scenario
 	thorough := tier == "thorough"
-	focus := []string{"newStream", "allocateStream", "removeStream", "Send", "SendMsg", "getStream", "createStream", "serve", "recvLoop"}
+	focus := []string{"newStream", "allocateStream", "removeStream", "Send", "SendMsg", "getStream", "createStream", "serve", "recvLoop", "cancelStream", "finishStream"}
 	type prog struct {
 		name    string
 		callers [][]Workload // per caller thread: RPCs started in sequence
@@ -81,7 +81,14 @@ func c08Scenarios(tier string) []*Scenario {
 		wl.Call.Creds = failingCreds{}
 		return wl
 	}
+	precancelled := func(id string, tag byte) Workload {
+		wl := b(id, tag)
+		wl.Call.PreCancel = true
+		return wl
+	}
 	progs := []prog{
+		{"2x1:U+precancelled", [][]Workload{{u("a1", 1)}, {precancelled("b1", 2)}}},
+		{"1x2:precancelled+U", [][]Workload{{precancelled("a1", 1), u("a2", 2)}}},
 		{"2x1:U+B", [][]Workload{{u("a1", 1)}, {b("b1", 2)}}},
 		{"2x1:U+fail", [][]Workload{{u("a1", 1)}, {failing("b1", 2)}}},
 		{"2x2:UB+SSU", [][]Workload{{u("a1", 1), b("a2", 2)}, {ss("b1", 3), u("b2", 4)}}},
@@ -180,7 +187,7 @@ func c08Scenarios(tier string) []*Scenario {
 						vs = append(vs, idsOracle(w, x, all)...)
 						if !withClose {
 							for _, wl := range all {
-								if wl.Call.Creds != nil {
+								if wl.Call.Creds != nil || wl.Call.PreCancel {
 									continue
 								}
 								vs = append(vs, completeOK(w, "C08", wl)...)
@@ -197,7 +204,7 @@ func c08Scenarios(tier string) []*Scenario {
 
 func init() {
 	register(&PropDef{ID: "C08", Level: "model_checking",
-		Rule:      "(concurrent creation) 2-3 goroutines starting 1-2 RPCs each (mixed shapes, one failing in its credentials, optionally racing a channel close), forward and reverse, with every lock/atomic/channel operation of stream creation, id allocation and the thread-safe send wrappers as a scheduling point, all schedules with <= 1 deviation (<= 2 for the two-goroutine programs) at quick, one more at thorough; oracle: ids strictly increasing on the wire, each id starts with new_stream (protocol monitor), each RPC gets at most one invocation of exactly its handler and exactly one when it completes; (raw histories) every sequence of length <= 3 (quick) / 4 (thorough) over {new_stream, request, half_close, cancel} x ids {-1,0,1,2,5} against the reference id rules (id not greater than all seen => tunnel ends with an error; frames for finished ids ignored)",
+		Rule:      "(concurrent creation) 2-3 goroutines starting 1-2 RPCs each (mixed shapes, one failing in its credentials, one whose context is already cancelled when it starts, optionally racing a channel close), forward and reverse, with every lock/atomic/channel operation of stream creation, id allocation and the thread-safe send wrappers as a scheduling point, all schedules with <= 1 deviation (<= 2 for the two-goroutine programs) at quick, one more at thorough; oracle: ids strictly increasing on the wire, each id starts with new_stream (protocol monitor), each RPC gets at most one invocation of exactly its handler and exactly one when it completes; (raw histories) every sequence of length <= 3 (quick) / 4 (thorough) over {new_stream, request, half_close, cancel} x ids {-1,0,1,2,5} against the reference id rules (id not greater than all seen => tunnel ends with an error; frames for finished ids ignored)",
 		Globals:   []func(*Scenario, *World, *Exec) []Violation{ProtoMonitor},
 		Scenarios: c08Scenarios})
 }
